@@ -36,7 +36,7 @@ pub mod cw_std {
 /// serde-doc the harness registered in `REGISTERED` (one of four fixed shapes).  This puts the
 /// generated `impl cw_multi_test::Contract` (which takes JSON BYTES) under the solver at the serde
 /// data-model level; the JSON text layer stays outside the claim.
-#[cfg(all(feature = "mt_docs", not(feature = "intercept_json")))]
+#[cfg(all(any(feature = "mt_docs", feature = "json_docs"), not(feature = "intercept_json")))]
 pub mod cw_std {
     pub use real_sylvia::cw_std::*;
     use support::doc::{Msg, Obj, EMPTY0};
